@@ -1,6 +1,8 @@
 package checks
 
 import (
+	"database/sql/driver"
+	"sync/atomic"
 	"context"
 	"encoding/json"
 	"fmt"
@@ -30,12 +32,23 @@ func runC09(r *core.Run) {
 	sets := allFeatureSets()
 	shapes := []string{"autocommit", "tx", "tx-after-writes", "nested", "two-logs"}
 	r.Floor("sync_inserts_checked", 20)
+	r.Floor("log_id_draws_checked", 20)
 	r.ForEach("trace", len(sets)*len(shapes), 0, func(c *core.Case) {
 		fs := sets[c.Index/len(shapes)]
 		shape := shapes[c.Index%len(shapes)]
 		db := realstore.NewSysDB()
 		defer db.Close()
-		db.Responder = realstore.NewTables().Respond
+		tables := realstore.NewTables()
+		var seqDraws int64
+		db.Responder = func(ctx context.Context, cn *pgshim.Conn, kind, sql string) (*pgshim.Rows, bool, error) {
+			// a stand-alone draw from a sequence (select nextval('...')) is answered, so that a store
+			// that allocates ids with a statement of its own still reaches its INSERT
+			if t := strings.ToLower(strings.TrimSpace(sql)); strings.HasPrefix(t, "select nextval(") {
+				n := atomic.AddInt64(&seqDraws, 1)
+				return &pgshim.Rows{Cols: []string{"nextval"}, Data: [][]driver.Value{{n}}}, true, nil
+			}
+			return tables.Respond(ctx, cn, kind, sql)
+		}
 		d := db.NewDriver()
 		ctx := context.Background()
 		l := ledger.MustNewWithDefault("l1")
@@ -103,6 +116,18 @@ func runC09(r *core.Run) {
 					lockedConnAuto = true
 				}
 			}
+			if sync && strings.Contains(low, "nextval(") && strings.Contains(low, "log_id_") {
+				// the id order must be the chain order: the log id may only be drawn once the
+				// ledger's advisory lock is held by the drawing transaction
+				r.Count("log_id_draws_checked", 1)
+				ok := lockedTx[s.TxID]
+				if s.TxID == 0 {
+					ok = lockedConnAuto
+				}
+				if !ok {
+					c.Violation("C09/log-id-drawn-before-the-ledger-advisory-lock:"+shape, map[string]any{"features": fs.String(), "sql": s.SQL, "statements": db.Shim.Log()})
+				}
+			}
 			if strings.HasPrefix(strings.TrimSpace(low), `insert into "_default".logs`) {
 				if sync {
 					r.Count("sync_inserts_checked", 1)
@@ -134,6 +159,16 @@ func runC09(r *core.Run) {
 			if out.OK() && out.Created != nil {
 				st.TxIDs = append(st.TxIDs, *out.Created.Transaction.ID)
 			}
+		}
+		// an atomic bulk: its log writes run in the transaction the controller's BeginTX opens
+		bulk := e.Do("POST", "/v2/src/_bulk?atomic=true", []byte(`[{"action":"CREATE_TRANSACTION","data":{"postings":[{"source":"world","destination":"bank","asset":"USD","amount":3}]}},{"action":"ADD_METADATA","data":{"targetType":"ACCOUNT","targetId":"bank","metadata":{"bulk":"1"}}}]`), nil)
+		r.Seen("atomic_bulk_status", fmt.Sprint(bulk.Status))
+		// The chain relies on every log being inserted by a transaction that sees the latest
+		// committed log once it holds the ledger lock, i.e. READ COMMITTED (a snapshot taken at the
+		// first statement would chain from a stale predecessor). The level is chosen in Go.
+		r.Count("ledgers_checked_for_transaction_isolation", 1)
+		for lvl, n := range e.C.IsolationAsked() {
+			c.Violation("C09/log-writing-transaction-opened-above-read-committed:"+lvl, map[string]any{"level": lvl, "transactions": n})
 		}
 		exp := e.Do("POST", "/v2/src/logs/export", nil, nil)
 		lines := strings.Split(strings.TrimSpace(string(exp.Body)), "\n")
